@@ -204,3 +204,18 @@ def worker(args):
         if it % 997 == 0:
             rec.sample({"input": s, "class": cls, "type": x.type if x is not None else None})
     return rec.result()
+
+
+def side_monitor(rec, model):
+    """Installs the C01 M-sid monitor as a side monitor of another property's workload.
+    Returns finalize(): folds its verdicts into `rec` (kinds prefixed 'msid:')."""
+    rec1 = Rec("C01")
+    install(rec1, model)
+
+    def finalize():
+        rec.mon("M-sid", rec1.monitor.get("M-sid", 0))
+        for v in rec1.unlisted[:5]:
+            rec.violation("msid:" + v["kind"], {"s": v["case"].get("s"), "msid": True}, v["detail"])
+        if rec1.unlisted_n > 5:
+            rec.count("msid_more", rec1.unlisted_n - 5)
+    return finalize
